@@ -160,4 +160,10 @@ theorem fact_client_exchange :
     Facts.clientBodyReads = ["io.ReadAll(httpResp.Body)", "io.ReadAll(httpResp.Body)"] := by
   decide
 
+/-- T1: `(*Store).Close` stops the poller and waits for it - and does nothing else: it does not
+touch the values handles (and slices already handed out) refer to. -/
+theorem fact_close_only_stops_the_poller :
+    Facts.storeCloseBody = ["s.cancel()", "<-s.done", "return nil"] := by
+  decide
+
 end Setec.C18
